@@ -6,9 +6,10 @@ io.RawIOBase backed by an in-memory file system. Real: S-Coda, mido's SMF codec,
 device and the directory. No file under /repo, /verif or /tmp is touched.
 
 Faults (all placed by the run's seed, counted only when they actually fired):
-  maskable      short write() / short readinto() counts, odd buffer sizes            -> must be invisible
+  maskable      short write() / short readinto() counts, odd buffer sizes, one EINTR   -> must be invisible
   non-maskable  ENOSPC or EIO on the k-th written byte, EIO on the k-th read byte    -> the call must raise; it may never
-                                                                                      return normally with different music
+                (persistent: every open() of the operation meets it, like a full       return normally with different music
+                 disk; or transient: only the first open() does)
 """
 from __future__ import annotations
 
@@ -43,6 +44,7 @@ class Plan:
         self.pattern = d.get("pattern", 1)     # seed of the short-count pattern
         self.buf = d.get("buf", 8192)
         self.also_short = d.get("also_short", False)
+        self.persist = d.get("persist", False)  # the condition (disk full, bad sector) outlives one open()
 
 
 class SimRaw(io.RawIOBase):
@@ -53,6 +55,7 @@ class SimRaw(io.RawIOBase):
         self._mode = mode
         self.plan = plan
         self.pos = 0
+        self._eintr_done = False
         self._lcg = (plan.pattern * 2654435761 + 12345) & 0xFFFFFFFF
         if mode == "wb":
             disk.files[name] = bytearray()     # 'wb' truncates at open
@@ -91,6 +94,10 @@ class SimRaw(io.RawIOBase):
         if n <= 0:
             return 0
         p = self.plan
+        if p.kind == "eintr" and not self._eintr_done and self.pos >= p.at:
+            self._eintr_done = True
+            self.disk.fired("read_eintr")
+            raise InterruptedError(errno.EINTR, "simulated EINTR on read")
         if p.kind == "eio":
             if self.pos >= p.at:
                 self.disk.fired("read_eio")
@@ -110,6 +117,10 @@ class SimRaw(io.RawIOBase):
         if n == 0:
             return 0
         p = self.plan
+        if p.kind == "eintr" and not self._eintr_done and self.pos >= p.at:
+            self._eintr_done = True
+            self.disk.fired("write_eintr")
+            raise InterruptedError(errno.EINTR, "simulated EINTR on write")
         if p.kind in ("enospc", "eio"):
             if self.pos >= p.at:
                 self.disk.fired("write_" + p.kind)
@@ -133,6 +144,7 @@ class SimDisk:
         self.next_plan = None
         self.fired_now = set()
         self.opened = 0
+        self.opened_in_op = 0
 
     def fired(self, kind):
         self.stats["fault/" + kind] += 1
@@ -145,14 +157,19 @@ class SimDisk:
         if mode == "rb" and name not in self.files:
             raise FileNotFoundError(errno.ENOENT, "simulated: no such file", name)
         plan = Plan(self.next_plan)
-        self.next_plan = None
+        if not plan.persist:
+            self.next_plan = None   # transient: only the first open of the operation sees it
         self.opened += 1
+        if self.opened_in_op > 0:
+            self.stats["reach_io/reopen_within_one_operation"] += 1
+        self.opened_in_op += 1
         raw = SimRaw(self, name, mode, plan)
         if mode == "wb":
             return io.BufferedWriter(raw, buffer_size=max(1, plan.buf))
         return io.BufferedReader(raw, buffer_size=max(1, plan.buf))
 
     def __enter__(self):
+        self.opened_in_op = 0
         self._old = mido_mf.__dict__.get("open", None)
         mido_mf.open = self.open
         return self
@@ -162,6 +179,7 @@ class SimDisk:
             del mido_mf.open
         else:
             mido_mf.open = self._old
+        self.next_plan = None
         return False
 
 
@@ -241,12 +259,44 @@ class DiskWorld:
         specs = self.pool[ev.get("which", 0) % len(self.pool)]
         seqs = [music.build_sequence(s["spec"], s["mode"]) for s in specs]
         plan = ev.get("plan") or {}
+        comp = None
+        expected = None
+        if ev.get("via") == "composition":
+            # Composition.save: the music that is saved is what the composition holds (bar splitting pads and may
+            # re-quantise boundary-cut notes: C09's business); the expectation is read harness-side from its sequences.
+            try:
+                from scoda.elements.composition import Composition
+                comp = Composition.from_sequences(seqs, 0)
+                held = comp.copy().to_sequences()
+                expected = observed_music(held)
+                if any(expected["odd"]):
+                    comp = None
+                else:
+                    expected = {"rolls": expected["rolls"], "ts": expected["ts"], "ks": expected["ks"]}
+                    # signatures of all tracks end up on the meta sequence: in force = union over tracks
+                    pts_t, pts_k = [], []
+                    for q in held:
+                        for m in q.abs._messages:
+                            if m.message_type is observe._TS:
+                                pts_t.append((m.time, (m.numerator, m.denominator)))
+                            elif m.message_type is observe._KS:
+                                pts_k.append((m.time, m.key.value))
+                    expected["ts"] = function_in_force(sorted(pts_t, key=lambda x: x[0]), (4, 4))
+                    expected["ks"] = function_in_force(sorted(pts_k, key=lambda x: x[0]), None)
+            except core.RunTimeout:
+                raise
+            except Exception:
+                comp = None
+            if comp is not None:
+                self.stats["reach_save/via_composition"] += 1
         self.disk.next_plan = plan
         self.disk.fired_now = set()
         exc = None
         try:
             with self.disk:
-                if ev.get("via") == "save" and len(seqs) == 1:
+                if comp is not None:
+                    comp.save(name)
+                elif ev.get("via") == "save" and len(seqs) == 1:
                     seqs[0].save(name)
                 else:
                     Sequence.sequences_save(seqs, name)
@@ -275,7 +325,8 @@ class DiskWorld:
             self.log.add("save", name, "raised", type(exc).__name__, sorted(fired), len(self.disk.files.get(name, b"")))
             return None
         # acknowledged
-        self.acked[name] = {"music": expected_music(specs), "hard_fault_during_save": sorted(hard)}
+        self.acked[name] = {"music": expected if comp is not None else expected_music(specs),
+                            "hard_fault_during_save": sorted(hard)}
         self.stats["reach_save/acknowledged"] += 1
         if hard:
             self.stats["reach_save/acknowledged_despite_hard_fault"] += 1
@@ -411,11 +462,15 @@ def gen_plan(rng, direction, size_hint):
     buf = rng.choice([1, 7, 64, 8192, 8192])
     if r < 0.35:
         return {"kind": "none", "buf": buf}
-    if r < 0.65:
+    if r < 0.6:
         return {"kind": "short", "pattern": rng.randrange(1, 1 << 20), "buf": buf}
+    if r < 0.68:
+        return {"kind": "eintr", "at": rng.randrange(0, max(1, size_hint)), "buf": buf, "also_short": rng.random() < 0.5,
+                "pattern": rng.randrange(1, 1 << 20)}
     at = rng.randrange(0, max(1, size_hint)) if rng.random() < 0.85 else rng.randrange(0, size_hint * 2 + 50)
     kind = "eio" if direction == "r" else rng.choice(["enospc", "eio"])
-    return {"kind": kind, "at": at, "buf": buf, "also_short": rng.random() < 0.3, "pattern": rng.randrange(1, 1 << 20)}
+    return {"kind": kind, "at": at, "buf": buf, "also_short": rng.random() < 0.3, "pattern": rng.randrange(1, 1 << 20),
+            "persist": rng.random() < 0.6}
 
 
 def c12_run_one(seed, tier, index):
@@ -434,7 +489,7 @@ def c12_run_one(seed, tier, index):
         if k == 0 or (rng.random() < 0.4) or not have:
             ev = {"op": "save", "name": rng.choice(names), "which": rng.randrange(len(pool)),
                   "plan": {"kind": "none", "buf": 8192} if lane == "baseline" else gen_plan(rng, "w", size_hint),
-                  "via": rng.choice(["save", "sequences_save"])}
+                  "via": rng.choice(["save", "sequences_save", "sequences_save", "composition"])}
         elif rng.random() < 0.08 and lane == "fault":
             ev = {"op": "torn_probe", "name": rng.choice(have), "cut": rng.randrange(1, 4096)}
         else:
@@ -552,7 +607,8 @@ class C12Engine(_DiskEngine):
 
     @staticmethod
     def zero_cells(stats):
-        want = ["fault/short_write", "fault/short_read", "fault/write_enospc", "fault/write_eio", "fault/read_eio",
+        want = ["fault/short_write", "fault/short_read", "fault/write_eintr", "fault/read_eintr", "fault/write_enospc",
+                "fault/write_eio", "fault/read_eio",
                 "reach_save/raised_under_fault", "reach_load/raised_under_fault", "reach_load/judged"]
         return [w for w in want if stats.get(w, 0) == 0]
 
@@ -984,7 +1040,7 @@ class C13Engine(_DiskEngine):
 
     @staticmethod
     def zero_cells(stats):
-        want = ["fault/short_read", "fault/read_eio", "reach_load/raised_under_fault", "reach_load/judged",
+        want = ["fault/short_read", "fault/read_eintr", "fault/read_eio", "reach_load/raised_under_fault", "reach_load/judged",
                 "reach_writer/mido", "reach_writer/raw"]
         return [w for w in want if stats.get(w, 0) == 0]
 
